@@ -29,8 +29,20 @@ def context_neighbors(model, R):
         ok = (isinstance(v, ast.Call) and isinstance(v.func, ast.Attribute) and v.func.attr == 'double' and not v.args
               and isinstance(v.func.value, ast.Call) and chain(v.func.value.func) == ['self', '_Objects', 'frommembers']
               and name_is(v.func.value.args[0], p))
-        R.check(ok, 'LINKS', f, c, 'Context.neighbors: the query is closed (object set -> object set) before its covers are computed',
-                f'self._Objects.frommembers({p}).double()', src(v))
+        conditional = []
+        if isinstance(arg, ast.Name):
+            for s_ in walk(f.body):
+                if (isinstance(s_, ast.If) and any(isinstance(a_, ast.Assign) and any(name_is(t_, arg.id) for t_ in a_.targets)
+                                                   and isinstance(a_.value, ast.Call) and isinstance(a_.value.func, ast.Attribute)
+                                                   and a_.value.func.attr == 'double' for a_ in s_.body + s_.orelse)):
+                    conditional.append(s_)
+        if conditional and not ok:
+            R.bad('LINKS', f, conditional[0], 'Context.neighbors: the query is closed (object set -> object set) before its covers are computed',
+                  'an unconditional .double()', f'closure only under "{src(conditional[0].test)}"',
+                  extra={'consequence': 'an un-closed set reaches the neighbour computation on the other path (e.g. the empty query when the bottom extent is not empty)'})
+        else:
+            R.check(ok, 'LINKS', f, c, 'Context.neighbors: the query is closed (object set -> object set) before its covers are computed',
+                    f'self._Objects.frommembers({p}).double()', src(v))
     nb = model.func('contexts.LatticeMixin._neighbors')
     r = [n.value for n in walk(nb.body) if isinstance(n, ast.Return)]
     ok = (len(r) == 1 and isinstance(r[0], ast.Call) and (chain(r[0].func) or [''])[-1] == 'neighbors' and len(r[0].args) == 1
